@@ -93,6 +93,30 @@ def run(prop, tier, seed, replay=None):
     c = s["counters"]
     if c.get("outcome_Ok", 0) < 1000:
         raise core.ToolError("vacuity guard: only %d successful samples" % c.get("outcome_Ok", 0))
+    sec = None
+    if prop in ("C06", "C07"):
+        # behaviours of the Sample machine itself, replayed: order, xi exponents, flag edges (bit for bit)
+        rnd = random.Random(seed + 23)
+        sp = os.path.join(wd, "sector.ndjson")
+        open(sp, "w").close()
+        sruns = ([dict(V=2, EMIN=2, EMAX=3, WSET={2, 4, 6}, WD=4, DSET={1, 3}, EXTV=2, STRIDE=17, OFFSET=rnd.randrange(17)),
+                  dict(V=3, EMIN=3, EMAX=3, WSET={4}, WD=4, DSET={2}, EXTV=2, STRIDE=11, OFFSET=rnd.randrange(11))] if tier == "quick" else
+                 [dict(V=3, EMIN=2, EMAX=3, WSET={2, 3, 4, 6}, WD=4, DSET={1, 2, 3, 4}, EXTV=3, STRIDE=53, OFFSET=rnd.randrange(53)),
+                  dict(V=3, EMIN=4, EMAX=4, WSET={4, 6}, WD=4, DSET={1, 3}, EXTV=2, STRIDE=997, OFFSET=rnd.randrange(997))])
+        sst = 0
+        for i, c_ in enumerate(sruns):
+            gr = core.tlc("Gen_Sector", core.cfg_text(spec="MCSpec", constants=c_, invariants=["EmitSector"]), "gen_sector_%d" % i, wd,
+                          workers=12, timeout=7200, coverage=False, replay_to=sp)
+            sst += gr.distinct
+        ss = core.mt("replay-sector", sp, os.path.join(wd, "sector.json"), seed, {"points": 3})
+        if ss["counters"].get("behaviours_replayed", 0) < 200:
+            raise core.ToolError("vacuity guard: only %s Sample behaviours replayed" % ss["counters"].get("behaviours_replayed"))
+        violations += ss["violations"]
+        sec = {"module": "Gen_Sector", "lines": core.count_lines(sp), "generator_states": sst, "behaviours_replayed": ss["counters"].get("behaviours_replayed", 0),
+               "counters": ss["counters"]}
+        for k, v in ss["counters"].items():
+            if k.startswith("violations_"):
+                c[k] = c.get(k, 0) + v
     tv = None
     if prop in ("C06", "C13"):
         # trace part: value of the coordinate vs. exact cumulative sums, inside TLC
@@ -127,6 +151,9 @@ def run(prop, tier, seed, replay=None):
     }
     if tv:
         cov["trace_validation"] = tv
+    if sec:
+        cov["sample_behaviours_replayed"] = sec
+        cov["traces_validated_against_impl"] += sec["behaviours_replayed"]
     assumptions = ["tolerances scale with the condition number of L and the cancellation ratio of V computed from the specification's "
                    "polynomials; points beyond 1e8 are skipped and counted", "generic kinematics (no partial sum of external momenta vanishes) "
                    "for the tropical comparisons"]
